@@ -133,6 +133,8 @@ def l1_groups(tier):
             es.append(("bin", op, l, B0("u")))
         yield (f"U{op}", es)
     yield ("Uun", [("un", "~", A("u"))])
+    yield ("Umath", [("call", f, [x, y]) for f in ("Math.max", "Math.min")
+                     for x, y in ((A("u"), B0("u")), (A("u"), L("n", 2)), (L("n", 2), B0("u")), (A("u"), L("n", 0)), (L("n", 1), A("u")))])
     D_l = [L("D", 0.5), L("D", 2.0), L("D", -1.5)]
     for op in ["+", "-", "*", "/", "==", "!=", "<", "<=", ">", ">="]:
         es = [("bin", op, A("d"), B0("d"))]
@@ -650,6 +652,11 @@ L4_FORMS = [
      ["a.b", "a.i", "b0.i"], lambda st: (st["a.i"] if st["a.b"] else st["b0.i"]) * 10 + 5),
     ("declarator-uses-ternary", "{ let x = a.b ? a.i : b0.i, y = x + (a.b ? 1 : 2); return y; }", ["a.b", "a.i", "b0.i"],
      lambda st: (st["a.i"] if st["a.b"] else st["b0.i"]) + (1 if st["a.b"] else 2)),
+    ("let-in-case-does-not-leak", "{ let x = a.j + 10; switch (a.i) { case 1: let x = 7; if (x > 100) { return x; } break; default: break; } return x; }",
+     ["a.i", "a.j"], lambda st: st["a.j"] + 10),
+    ("let-in-case-visible-after-fall-through", "{ let r = 0; switch (a.i) { case 1: let k = 5; r = k; case 2: r = r + 1; break; default: r = 9; } return r; }",
+     ["a.i"], lambda st: {1: 6, 2: 1}.get(st["a.i"], 9)),
+    ("const-in-default-does-not-leak", "{ const c = 4; switch (a.i) { default: const c = 40; if (c < 0) { return c; } } return c; }", ["a.i"], lambda st: 4),
     ("and-right-or", "(a.b && (b0.b || c0.b)) ? 1 : 0", ["a.b", "b0.b", "c0.b"], lambda st: int(st["a.b"] and (st["b0.b"] or st["c0.b"]))),
     ("and-right-ternary", "(a.b && (c0.b ? b0.b : b0.c)) ? 1 : 0", ["a.b", "c0.b", "b0.b", "b0.c"],
      lambda st: int(st["a.b"] and (st["b0.b"] if st["c0.b"] else st["b0.c"]))),
